@@ -130,7 +130,38 @@ def rule_d3(toks, log, drop=()):
             elif t[1] == 'debug_assert_ne':
                 cond = [T('p', '(')] + args[0] + [T('p', ')'), T('p', '!=')] + [T('p', '(')] + args[1] + [T('p', ')')]
             else:
-                raise Unsupported('debug_assert_zero! outside a drop list: ' + _txt(args[0]))
+                # D3z: the crate macro `debug_assert_zero!(E)` is `{ let __check__ = E; debug_assert_eq!(__check__ as
+                # DoubleWord, 0); }` (integer/src/helper_macros.rs): E is EVALUATED in every build (its side effects
+                # are part of the function), only the comparison is debug-only.  ==> `let __zchkK = E ;` always,
+                # plus the proof obligation `assert(__zchkK == 0)` unless the ordinal is in the drop list.
+                if len(args) != 1 or not args[0] or any(x[2] for x in args[0]):
+                    raise Unsupported('D3z: debug_assert_zero! shape: ' + _txt(toks[i:e + 1]))
+                if not (e + 1 < len(toks) and _is(toks[e + 1], ';')) or \
+                        (i > 0 and not (toks[i - 1][2] or (toks[i - 1][0] == 'p' and toks[i - 1][1] in (';', '{', '}')))):
+                    raise Unsupported('D3z: debug_assert_zero! is not a statement')
+                zv = '__zchk%d' % n_assert
+                out += toks_of('let %s =' % zv, False) + args[0] + [T('p', ';')]
+                n_assert += 1
+                if n_assert - 1 in drop or '*' in drop:
+                    log.append('D3z debug_assert_zero #%d `%s`: evaluated, comparison dropped' % (n_assert - 1, _txt(args[0])))
+                else:
+                    log.append('D3z debug_assert_zero #%d `%s`: evaluated, then proof obligation `== 0`' % (
+                        n_assert - 1, _txt(args[0])))
+                    # an annotation `proof { .. }` that directly follows the statement argues about the value just
+                    # computed: it goes between the evaluation and the obligation
+                    k = e + 2
+                    if k + 1 < len(toks) and toks[k][2] and toks[k + 1][2] and _is(toks[k], 'proof') and _is(toks[k + 1], '{'):
+                        ke = _match_close(toks, k + 1)
+                        if not all(x[2] for x in toks[k:ke + 1]):
+                            raise Unsupported('D3z: proof block after debug_assert_zero! mixes real tokens')
+                        out += toks[k:ke + 1]
+                        log.append('D3z   (following proof block placed before the obligation)')
+                        out += toks_of('assert ( %s == 0 ) ;' % zv, False)
+                        i = ke + 1
+                        continue
+                    out += toks_of('assert ( %s == 0 ) ;' % zv, False)
+                i = e + 2
+                continue
             j = e + 1
             if j < len(toks) and _is(toks[j], ';'):
                 j += 1
@@ -714,6 +745,32 @@ def rule_d2(toks, log):
             break
     if f is None:
         raise Unsupported('D2: no fn')
+    # optional `Generics = ['a, 'b]`: the lifetime parameters of the impl header (`impl<'a, 'b> Tr<X<'b>> for Y<'a>`),
+    # which the method signature may mention, are declared on the free function (only lifetimes; the method must have
+    # no generic parameter list of its own)
+    # optional `Name = ident`: the free function gets this name instead of the method name (the methods of different
+    # impl blocks share a name: `add`, `sub`, ..; a free function cannot be called through its old name, so only a
+    # directly recursive method would notice -- rejected)
+    newname = amap.pop('Name', None)
+    if newname is not None:
+        if len(newname) != 1 or newname[0][0] != 'id' or ts[f + 1][0] != 'id':
+            raise Unsupported('D2: Name entry must be a single identifier')
+        oldname = ts[f + 1][1]
+        if any(x[0] == 'id' and x[1] == oldname and not x[2] and _is(ts[q - 1], '::') and ts[q - 2][1] == 'Self'
+               for q, x in enumerate(ts) if q > f + 1):
+            raise Unsupported('D2: Name entry on a recursive method')
+        ts = ts[:f + 1] + [T('id', newname[0][1])] + ts[f + 2:]
+        log.append('D2 hoist: free function named `%s` (method `%s`)' % (newname[0][1], oldname))
+    gen = amap.pop('Generics', None)
+    if gen is not None:
+        if not (len(gen) >= 3 and _is(gen[0], '[') and _is(gen[-1], ']')) or _is(ts[f + 2], '<'):
+            raise Unsupported('D2: Generics entry shape / method has its own generics')
+        inner = gen[1:-1]
+        for q, x in enumerate(inner):
+            if not ((q % 2 == 0 and x[0] == 'id' and x[1].startswith("'")) or (q % 2 == 1 and _is(x, ','))):
+                raise Unsupported('D2: Generics entry may only list lifetimes: `%s`' % _txt(gen))
+        ts = ts[:f + 2] + [T('p', '<')] + inner + [T('p', '>')] + ts[f + 2:]
+        log.append('D2 hoist: impl lifetimes `%s` declared on the free function' % _txt(inner))
     j = f + 1
     gd = 0
     while True:
@@ -758,6 +815,201 @@ def rule_d2(toks, log):
 
 
 # ---------------------------------------------------------------------------------------
+# D12: `match` on a slice by length patterns ==> if-chain on `.len()`
+
+def rule_d12(toks, log):
+    """`match X { [] => E0, &[a] => E1, &[a, b] => E2, .., _ => En }` (X a single identifier; arm patterns only the
+    empty slice pattern `[]`, `&[id, ..ids]` / `[id, ..ids]` with plain identifiers, and a final `_`) ==>
+    `if X.len() == 0 { E0 } else if X.len() == 1 { let a = X[0]; E1 } else if X.len() == 2 { let a = X[0]; let b = X[1]; E2 }
+    .. else { En }`.  Verus (this build) rejects slice patterns.  For a `&[T]` scrutinee with `T: Copy` this is the
+    meaning of the patterns (match by length, elements bound by value); any other arm shape in a match that contains
+    a slice pattern raises Unsupported.  Matches without slice patterns are left untouched."""
+    out = list(toks)
+    i = 0
+    while i < len(out):
+        t = out[i]
+        if not (_is(t, 'match') and not t[2] and i + 2 < len(out) and out[i + 1][0] == 'id' and not out[i + 1][2]
+                and _is(out[i + 2], '{') and not out[i + 2][2]):
+            i += 1
+            continue
+        scrut = out[i + 1][1]
+        be = _match_close(out, i + 2)
+        body = out[i + 3:be]
+        arms = []
+        k = 0
+        ok = True
+        while k < len(body):
+            d = 0
+            a = k
+            while k < len(body) and not (d == 0 and _is(body[k], '=>')):
+                if body[k][0] == 'p' and body[k][1] in rtok.OPEN:
+                    d += 1
+                elif body[k][0] == 'p' and body[k][1] in rtok.CLOSE:
+                    d -= 1
+                k += 1
+            if k >= len(body):
+                ok = False
+                break
+            pat = body[a:k]
+            k += 1
+            e0 = k
+            while k < len(body) and body[k][2]:
+                k += 1                      # annotation blocks in front of the arm expression stay with it
+            if k < len(body) and _is(body[k], '{'):
+                ce = _match_close(body, k)
+                expr = body[e0:k] + body[k + 1:ce]
+                k = ce + 1
+                if k < len(body) and _is(body[k], ','):
+                    k += 1
+            else:
+                d = 0
+                while k < len(body) and not (d == 0 and _is(body[k], ',')):
+                    if body[k][0] == 'p' and body[k][1] in rtok.OPEN:
+                        d += 1
+                    elif body[k][0] == 'p' and body[k][1] in rtok.CLOSE:
+                        d -= 1
+                    k += 1
+                expr = body[e0:k]
+                k += 1
+            arms.append((pat, expr))
+        if not ok:
+            i += 1
+            continue
+
+        def slice_pat(p):
+            q = p[1:] if p and _is(p[0], '&') else p
+            if len(q) >= 2 and _is(q[0], '[') and _match_close(q, 0) == len(q) - 1:
+                return q[1:-1]
+            return None
+        if not any(slice_pat(p) is not None for p, _ in arms):
+            i += 1
+            continue
+        if any(x[2] for p, _ in arms for x in p):
+            raise Unsupported('D12: annotation inside a slice pattern')
+        new = []
+        seen = set()
+        for n_arm, (p, e) in enumerate(arms):
+            inner = slice_pat(p)
+            if inner is None:
+                if not (len(p) == 1 and _is(p[0], '_') and n_arm == len(arms) - 1):
+                    raise Unsupported('D12: arm pattern `%s` in a slice match' % _txt(p))
+                new += toks_of('else', False) + [T('p', '{')] + e + [T('p', '}')]
+                break
+            names = [] if not inner else _split_top(inner)
+            if any(len(nm) != 1 or nm[0][0] != 'id' or nm[0][1] in ('_', 'ref', 'mut') for nm in names):
+                raise Unsupported('D12: slice pattern `%s`' % _txt(p))
+            ln = len(names)
+            if ln in seen:
+                raise Unsupported('D12: two arms of length %d' % ln)
+            seen.add(ln)
+            head = ('else if ' if new else 'if ') + '%s . len ( ) == %d' % (scrut, ln)
+            binds = ''.join('let %s = %s [ %d ] ; ' % (nm[0][1], scrut, j) for j, nm in enumerate(names))
+            new += toks_of(head, False) + [T('p', '{')] + toks_of(binds, False) + e + [T('p', '}')]
+        else:
+            raise Unsupported('D12: slice match without a final `_` arm')
+        log.append('D12 `match %s { %s }` on slice patterns -> if-chain on %s.len()' % (
+            scrut, ' , '.join(_txt(p) for p, _ in arms), scrut))
+        out = out[:i] + new + out[be + 1:]
+        i += len(new)
+    return out
+
+
+# ---------------------------------------------------------------------------------------
+# D13: a local variable named like a Verus built-in type
+
+_D13_NAMES = ('int', 'nat')
+
+
+def rule_d13(toks, log):
+    """`let int = E;` (the real code of float/src/convert.rs `Repr::to_int` names a local `int`): inside `verus!{}` the
+    identifiers `int` / `nat` are types, so the local is renamed to `int_` / `nat_` -- every occurrence of the
+    identifier among the REAL tokens (annotation tokens keep meaning the type; annotations refer to the local by
+    its new name).  Shape check: the name must be bound by a plain `let NAME =` / `let mut NAME =` in the real
+    tokens and must not occur in the real tokens as a path segment, field or method name (`::int`, `.int`, `int::`)."""
+    out = list(toks)
+    for nm in _D13_NAMES:
+        real = [i for i, t in enumerate(out) if t[0] == 'id' and t[1] == nm and not t[2]]
+        if not real:
+            continue
+        bound = False
+        for i in real:
+            prev = out[i - 1] if i > 0 else None
+            prev2 = out[i - 2] if i > 1 else None
+            nxt = out[i + 1] if i + 1 < len(out) else None
+            if prev is not None and prev[0] == 'p' and prev[1] in ('::', '.'):
+                raise Unsupported('D13: `%s` used as a path segment / member' % nm)
+            if nxt is not None and nxt[0] == 'p' and nxt[1] == '::':
+                raise Unsupported('D13: `%s` used as a path prefix' % nm)
+            if prev is not None and _is(prev, 'as'):
+                raise Unsupported('D13: `as %s`' % nm)
+            if nxt is not None and _is(nxt, '=') and prev is not None and (
+                    _is(prev, 'let') or (_is(prev, 'mut') and prev2 is not None and _is(prev2, 'let'))):
+                bound = True
+        if not bound:
+            raise Unsupported('D13: identifier `%s` in the real code is not a `let`-bound local' % nm)
+        for i in real:
+            out[i] = T('id', nm + '_', False)
+        log.append('D13 local variable `%s` (a type name inside verus!) renamed to `%s_` (%d occurrences)' % (nm, nm, len(real)))
+    return out
+
+
+# ---------------------------------------------------------------------------------------
+# D14: shift operator whose left operand is a parenthesised reference ==> the trait method it stands for
+
+_D14_OPS = {'<<': 'Shl :: shl', '>>': 'Shr :: shr'}
+
+
+def rule_d14(toks, log):
+    """`(&A) << E` / `(&A) >> E` as a complete expression (preceded by `=`, `(`, `{`, `}`, `;`, `,` or an annotation;
+    E runs to the next top-level `,`, `)`, `;` or `}`) ==> `core::ops::Shl::shl((&A), E)` resp. `Shr::shr`.  Same reason
+    as D11: this Verus build fails with an internal error (`codegen_select_candidate failed`) on an overloaded
+    operator whose left operand is a reference; the rewrite is Rust's own definition of the operator."""
+    out = list(toks)
+    i = 0
+    while i < len(out):
+        t = out[i]
+        if t[0] == 'p' and t[1] == '(' and not t[2] and i + 1 < len(out) and _is(out[i + 1], '&') \
+                and (i == 0 or out[i - 1][2] or (out[i - 1][0] == 'p' and out[i - 1][1] in ('=', '(', '{', '}', ';', ','))):
+            e1 = _match_close(out, i)
+            if e1 + 1 < len(out) and out[e1 + 1][0] == 'p' and out[e1 + 1][1] in _D14_OPS and not out[e1 + 1][2]:
+                op = out[e1 + 1][1]
+                j = e1 + 2
+                d = 0
+                while j < len(out):
+                    tk = out[j]
+                    if tk[0] == 'p' and tk[1] in rtok.OPEN:
+                        d += 1
+                    elif tk[0] == 'p' and tk[1] in rtok.CLOSE:
+                        if d == 0:
+                            break
+                        d -= 1
+                    elif d == 0 and tk[0] == 'p' and tk[1] in (',', ';'):
+                        break
+                    j += 1
+                rhs = out[e1 + 2:j]
+                bad = not rhs or any(x[2] for x in rhs)
+                dd = 0
+                for k, x in enumerate(rhs):
+                    if x[0] == 'p' and x[1] in rtok.OPEN:
+                        dd += 1
+                    elif x[0] == 'p' and x[1] in rtok.CLOSE:
+                        dd -= 1
+                    elif dd == 0 and k > 0 and x[0] == 'p' and x[1] in (
+                            '<', '>', '<=', '>=', '==', '!=', '&&', '||', '+', '-', '*', '/', '%', '|', '^', '&', '<<', '>>', '..', '='):
+                        bad = True
+                if bad:
+                    # only a cast / call / path / parenthesised / unary-minus operand is accepted (no top-level binary operator)
+                    raise Unsupported('D14: shift amount shape `%s`' % _txt(rhs))
+                log.append('D14 `%s` -> core::ops::%s(..)' % (_txt(out[i:j])[:80], _D14_OPS[op].replace(' ', '')))
+                new = toks_of('core :: ops :: %s (' % _D14_OPS[op], False) + out[i:e1 + 1] + [T('p', ',')] + rhs + [T('p', ')')]
+                out = out[:i] + new + out[j:]
+                i += len(new)
+                continue
+        i += 1
+    return out
+
+
+# ---------------------------------------------------------------------------------------
 
 def lower(toks, marks, opts=None):
     """toks: [(kind,text)], marks: [bool]; returns ([(kind,text)], log)."""
@@ -771,6 +1023,9 @@ def lower(toks, marks, opts=None):
     ts = rule_d4a(ts, log)
     ts = rule_d10(ts, log)
     ts = rule_d11(ts, log)
+    ts = rule_d12(ts, log)
+    ts = rule_d13(ts, log)
+    ts = rule_d14(ts, log)
     ts = rule_d7(ts, log)
     ts = rule_d1(ts, log)
     ts = rule_d9(ts, log)
